@@ -279,7 +279,7 @@ func (ts *SimpleTimers) iterate(ctx context.Context) error {
 
 		_ = wk.NewJob(func(context.Context, uint64) error {
 			if keep, err := tr.run(); err != nil || !keep {
-				_ = ts.removeTimer(tr.id)
+				_ = ts.removeTimerOf(tr)
 			}
 
 			return nil
@@ -336,6 +336,24 @@ func (ts *SimpleTimers) removeTimer(id TimerID) bool {
 		}
 
 		return nil
+	})
+
+	return removed
+}
+
+// removeTimerOf removes the given timer only if it is still the one registered
+// under it's id; the id can be registered again by NewTimer() while the old
+// timer is running.
+func (ts *SimpleTimers) removeTimerOf(tr *SimpleTimer) bool {
+	removed, _ := ts.timers.Remove(tr.id, func(timer *SimpleTimer, found bool) error {
+		switch {
+		case !found, timer != tr:
+			return ErrLockedSetIgnore.WithStack()
+		default:
+			timer.whenRemoved()
+
+			return nil
+		}
 	})
 
 	return removed
